@@ -35,7 +35,7 @@ theorem final_phase_exists (u : Univ) (s : State) (hc : Covers u s) :
     ∃ fin, ValidRun u s fin ∧ FinalPhase u s s.reps.length fin := exists_finalPhase u s hc
 
 /-- the replicator of the Go text of this run looks at EVERY hash a fetched entry names (no early exit
-from the loop that queues them), as the model's `fetchOk` does -/
+from the loop that queues them), as the model's `fetched` does -/
 theorem parent_walk_tied_to_go_text : Gen.parentWalkExits = 0 := gen_parentWalk_complete
 
 end Orbit.C02
